@@ -1,10 +1,14 @@
 (* C05 -- decoding arbitrary bytes is total: parameter validation and absorbing failure
    states, over every decoder value / input / buffer / flag word.  (The no-panic and
-   termination clauses are added in proofs/InflateSafe as they are proved; see DESIGN.md.) *)
-From Coq Require Import NArith Bool.
+   termination clauses are added in proofs/InflateSafe as they are proved; see DESIGN.md.)
+   The return clause is proved for inputs that are streams of stored blocks (raw or zlib) followed by
+   arbitrary bytes, under every schedule of input slices and output budgets: each call of the model
+   returns a value - no debug-profile panic, no exhausted fuel (C05_returns_on_stored_streams_partial). *)
+From Coq Require Import NArith ZArith List Bool.
 From MZ.lib Require Import Arr Mach.
 From MZ.model Require Import InflateCore.
-From MZ.proofs Require Import InflateBasic InflateFrame3.
+From MZ.spec Require Import Zlib.
+From MZ.proofs Require Import InflateBasic InflateFrame3 StoredSpec InflateStoredTotal.
 Local Open Scope N_scope.
 
 Theorem C05_bad_geometry_is_param_error :
@@ -48,3 +52,23 @@ Example C05_failure_example :
   | _ => False
   end.
 Proof. vm_compute. split; reflexivity. Qed.
+
+Theorem C05_returns_on_stored_streams_partial :
+  forall flags zl cmf flg A chunks last extra sched later o,
+  has flags F_ZLIB = zl -> has flags F_STOPBB = false -> has flags F_NONWRAP = true -> has flags F_MORE = true ->
+  cmf < 256 -> flg < 256 -> valid_header (Z.of_N cmf) (Z.of_N flg) = true -> A < 2 ^ 32 ->
+  chunks_ok chunks -> bytes_ok last -> N.of_nat (length last) <= 65535 ->
+  concat (map fst sched) ++ later
+  = ((if zl then cmf :: flg :: nil else nil) ++ stored_stream chunks last ++ (if zl then be32 A else nil)) ++ extra ->
+  alen o <= USIZE_MAX -> N.of_nat (length (concat (map fst sched))) < 2 ^ 57 ->
+  exists result, feed2 flags dec_default o 0 nil sched 0 NeedsMoreInput = Ret result.
+Proof.
+  intros flags zl cmf flg A chunks last extra sched later o HZ HSB HNW HM Hc Hf Hv HA Hck Hb Hl Hcat Hrep Hsh.
+  destruct zl.
+  - destruct (schedule_zlib_stored_stream flags cmf flg A chunks last extra sched later o HZ HSB HNW HM Hc Hf Hv HA Hck Hb Hl
+                ltac:(rewrite Hcat; cbn [app]; rewrite <- !app_assoc; reflexivity) Hrep Hsh) as (s & t & o' & p' & H & _).
+    eexists; exact H.
+  - destruct (schedule_raw_stored_stream flags chunks last extra sched later o HZ HSB HNW HM Hck Hb Hl
+                ltac:(rewrite Hcat; cbn [app]; rewrite app_nil_r; reflexivity) Hrep Hsh) as (s & t & o' & p' & H & _).
+    eexists; exact H.
+Qed.
